@@ -149,6 +149,20 @@ Theorem C19_stream_read_no_panic : forall s : bytes, stream_read_all s <> Panic.
 Proof. exact stream_read_no_panic. Qed.
 Print Assumptions C19_stream_read_no_panic.
 
+(* ... and what the reader hands on is exactly the backend's stdout: for EVERY list of well-formed
+   records (any types, stderr diverted, any padding, empty records included), ended by an
+   end-request record or by closing the connection, the caller gets the concatenated contents
+   followed by io.EOF (error class 1) *)
+Theorem C19_stream_decodes_records :
+  forall (rs : list frec) (closed : bool), forallb frec_wf rs = true ->
+    stream_read_all (flat_map enc_rec rs ++ (if closed then [] else end_request)) = Ok (stdout_of rs, 1).
+Proof. exact stream_decodes. Qed.
+Print Assumptions C19_stream_decodes_records.
+
+Example C19_stream_decodes_records_nonvacuous :
+  forallb frec_wf [mkRec 6 [104; 105] 6; mkRec 7 [33] 7; mkRec 6 [] 0] = true.
+Proof. reflexivity. Qed.
+
 Theorem C19_fcgi_status_no_panic_refuted : exists v : bytes, fcgi_status v = Panic.
 Proof. exact fcgi_status_refuted. Qed.
 Print Assumptions C19_fcgi_status_no_panic_refuted.
